@@ -169,7 +169,7 @@ func libGlobal(ex *Exec, g *ssa.Global) (Value, bool) {
 		o := ex.newOpaque("b64enc")
 		o.Attrs["name"] = StrLit(g.Name())
 		return Ptr{Obj: ex.newObj(o, nil)}, true
-	case "context.DeadlineExceeded", "context.Canceled", "io.EOF", "io.ErrUnexpectedEOF", "net/http.ErrNoCookie", "net/http.ErrUseLastResponse",
+	case "context.DeadlineExceeded", "context.Canceled", "io.EOF", "io.ErrUnexpectedEOF", "net/http.ErrNoCookie", "net/http.ErrUseLastResponse", "net/http.ErrNoLocation",
 		"crypto/rand.Reader", "os.Stderr", "os.Stdout":
 		key := "libglobal:" + name
 		if v, ok := ex.memo[key]; ok {
